@@ -15,3 +15,4 @@ import Librfn.Props.C10
 import Librfn.Props.C04
 import Librfn.Props.C11
 import Librfn.Props.C08
+import Librfn.Props.C07HB
